@@ -529,9 +529,16 @@ def run_uniform(ctx, hook):
                                 alts = {'min,max,cell_sides': odl.uniform_partition(min_pt=mn, max_pt=mx, cell_sides=cs, **kw),
                                         'min,shape,cell_sides': odl.uniform_partition(min_pt=mn, shape=shape, cell_sides=cs, **kw),
                                         'max,shape,cell_sides': odl.uniform_partition(max_pt=mx, shape=shape, cell_sides=cs, **kw)}
+                                # limits handed in are the limits of the partition, exactly - also when the cell sides given with
+                                # them are only approximately (max - min) / n (the node count is documented to be rounded)
+                                alts['min,max,cell_sides(1+4e-8)'] = odl.uniform_partition(min_pt=mn, max_pt=mx, cell_sides=cs * (1 + 4e-8), **kw)
+                                alts['min,max,cell_sides(1-3e-7)'] = odl.uniform_partition(min_pt=mn, max_pt=mx, cell_sides=cs * (1 - 3e-7), **kw)
                                 for name, q in alts.items():
                                     if q.shape != p.shape or not q.approx_equals(p, atol=1e-9 * max(1.0, np.abs(mx).max(), np.abs(mn).max())):
                                         ctx.violation('uniform_partition', '%s;%s' % (lname, name), 'parameter-subset-differs', shape=shape, nob=nob_l)
+                                    if name.startswith('min,max') and (not np.array_equal(q.min_pt, np.asarray(mn, float)) or not np.array_equal(q.max_pt, np.asarray(mx, float))):
+                                        ctx.violation('uniform_partition', '%s;%s' % (lname, name.split('(')[0]), 'requested-limits-not-exactly-kept',
+                                                      got=(q.min_pt.tolist(), q.max_pt.tolist()), want=(list(map(float, mn)), list(map(float, mx))))
                             except Exception as e:
                                 ctx.violation('uniform_partition', lname + ';completion', 'raises:' + type(e).__name__, message=str(e)[:200], shape=shape, nob=nob_l, mn=mn, mx=mx)
                         # fromintv / fromgrid
@@ -578,7 +585,15 @@ def run_nonuniform(ctx, hook):
             shape = tuple(int(k) for k in rng.integers(1, 7, size=nd))
             nob = [nobs1[int(rng.integers(4))] for _ in range(nd)]
             cvs = [np.sort(rng.uniform(-2, 2, size=k)) + 0.05 * np.arange(k) for k in shape]
-            cls = 'nonuniform;%dd;len1=%s' % (nd, any(s == 1 for s in shape))
+            if rep % 4 == 3:
+                # measured sampling points: equidistant up to a relative 1e-6 .. 1e-5 of the spacing (classified uniform by the
+                # grid, yet every cell has its own size)
+                shape = tuple(max(k, 3) + 2 for k in shape)
+                cvs = []
+                for k in shape:
+                    h_ = rng.uniform(0.1, 1.0)
+                    cvs.append(rng.uniform(-2, 2) + h_ * np.arange(k) + h_ * rng.uniform(-4e-6, 4e-6, size=k))
+            cls = 'nonuniform;%dd;len1=%s' % (nd, any(s == 1 for s in shape)) + (';almost-equidistant' if rep % 4 == 3 else '')
             ctx.case(cls, (shape, tuple(nob), rep))
             hook.origin = 'nonuniform_partition'
             ctx.ev('uniform-model')
